@@ -25,7 +25,7 @@ LEVEL_TEXT = (
     "concurrency limit and node-list order are executed on the real AsyncRunner and compared with the SyncRunner; snapshot isolation is "
     "checked on every execution. Exhaustive inside the bounds; larger fan-outs than 4 bodies per step are not explored."
 )
-LEVEL_NOTE = "virtual loop owns scheduling (mc/vloop.py); one suspension point per node body; asyncio FIFO ready order kept; bounds and caps in evidence"
+LEVEL_NOTE = 'virtual loop owns scheduling (mc/vloop.py); one suspension point per node body; asyncio FIFO ready order kept; bounds and caps in evidence; also: every node-list permutation of eight deterministic cyclic / signal / gated programs (FIFO and LIFO completion), iteration caps at need-1 / need / need+1'
 ASSUMPTIONS = [
     "schedule nondeterminism = order in which suspended node bodies complete (one suspension point per body); asyncio's FIFO ready queue is kept",
     "values are provenance terms; loop templates use small integers",
